@@ -677,7 +677,7 @@ def _constructible(model):
 
 def _ec_root_cause(model, exc_name):
     """'PublicKeyParamsEcdsa:<condition>' when an arithmetic error meets an ECDSA key in a known bad shape."""
-    if exc_name not in ('ValueError', 'OverflowError'):
+    if exc_name not in ('ValueError', 'OverflowError', 'InvalidValue'):
         return None
     for key in _plain_keys(model):
         condition = _ec_condition(key)
